@@ -858,4 +858,93 @@ def compileSelected (o : BuildOpts) (ps : List Policy) : List Filter :=
 def compile (w : Workload) (o : BuildOpts) (ps : List Policy) : List Filter :=
   compileSelected o (selectPolicies w ps)
 
+/-! ## CUSTOM action (`Option.IsCustomBuilder`, extauthz.go)
+
+The CUSTOM builder compiles the CUSTOM policies with the DENY error handling into one RBAC filter
+per provider that only carries *shadow* rules (never enforced; the matched policy id is written to
+dynamic metadata), followed by the provider's ext_authz filter, enabled by a metadata prefix match on
+that id.  If the provider is not (validly) defined in the mesh config, or several providers are
+used while the multi-provider feature is off, the policies are enforced as DENY instead.
+Dry-run CUSTOM policies are not emitted (after the fix recorded in notes/C08.md). Only gRPC
+providers are modelled (they exist for HTTP and TCP chains). -/
+
+structure CustomOpts where
+  providers : List Str    -- extension providers defined (and valid) in the mesh config
+  multi : Bool            -- PILOT_ENABLE_MULTIPLE_CUSTOM_AUTHZ_PROVIDERS
+deriving Repr, Inhabited
+
+/-- A generated filter: an RBAC filter or the ext_authz filter of a provider (only its enabling
+    metadata matcher is modelled: RBAC filter name and policy-id prefix). -/
+inductive GFilter
+  | rbac (f : Filter)
+  | extAuthz (name : Str) (rbacName : Str) (idPrefix : Str)
+deriving Repr, Inhabited
+
+def extAuthzMatchPrefix : Str := "istio-ext-authz".toList
+def badCustomActionSuffix : Str := "-deny-due-to-bad-CUSTOM-action".toList
+
+/-- The prefix `policyName` adds for the CUSTOM builder. -/
+def customPrefix (provider : Str) : Str :=
+  if provider.isEmpty then extAuthzMatchPrefix ++ ['-'] else extAuthzMatchPrefix ++ ['-'] ++ provider ++ ['-']
+
+def customEntries (o : BuildOpts) (p : Policy) : List (Str × EPolicy) :=
+  (policyEntries o false p).map fun e => (customPrefix p.provider ++ e.1, e.2)
+
+/-- `sort.Strings` order (bytes = code points). -/
+def strLt : Str → Str → Bool
+  | [], [] => false
+  | [], _ :: _ => true
+  | _ :: _, [] => false
+  | a :: as, b :: bs => a.toNat < b.toNat || (a == b && strLt as bs)
+
+def insertSorted (x : Str) : List Str → List Str
+  | [] => [x]
+  | y :: ys => if strLt y x then y :: insertSorted x ys else x :: y :: ys
+
+def dedupStr : List Str → List Str
+  | [] => []
+  | x :: xs => x :: (dedupStr xs).filter (· != x)
+
+/-- `maps.Keys` + `sort.Strings` of a set of names: distinct names, sorted. -/
+def sortDedup (l : List Str) : List Str := (dedupStr l).foldr insertSorted []
+
+def rbacFilterName (tcp : Bool) : Str :=
+  if tcp then "envoy.filters.network.rbac".toList else "envoy.filters.http.rbac".toList
+
+def extAuthzFilterName (tcp : Bool) : Str :=
+  if tcp then "envoy.filters.network.ext_authz".toList else "envoy.filters.http.ext_authz".toList
+
+/-- `providerRules[provider].Policies`: the non-dry-run CUSTOM policies of the provider. -/
+def providerRules (o : BuildOpts) (cps : List Policy) (prov : Str) : List (Str × EPolicy) :=
+  upsertAll [] ((cps.filter fun p => p.provider == prov && !p.dryRun).flatMap (customEntries o))
+
+/-- `getBadCustomDenyRules`: the provider's policies enforced as DENY. -/
+def badCustomFilter (o : BuildOpts) (cps : List Policy) (prov : Str) : Filter :=
+  { name := rbacFilterName o.forTCP,
+    rules := some ⟨.deny, (providerRules o cps prov).map fun e => (e.1 ++ badCustomActionSuffix, e.2)⟩,
+    shadow := none, shadowPrefix := [], statPrefix := if o.forTCP then "tcp.".toList else [] }
+
+def customFilters (o : BuildOpts) (cps : List Policy) (prov : Str) : List GFilter :=
+  [ .rbac { name := rbacFilterName o.forTCP, rules := none,
+            shadow := some ⟨.deny, providerRules o cps prov⟩,
+            shadowPrefix := "istio_ext_authz_".toList,
+            statPrefix := if o.forTCP then "tcp.".toList else [] },
+    .extAuthz (extAuthzFilterName o.forTCP) (rbacFilterName o.forTCP) (extAuthzMatchPrefix ++ ['-'] ++ prov) ]
+
+/-- `builder.New` + `build[T]` for the CUSTOM builder on the selected policies. -/
+def compileCustomSelected (o : BuildOpts) (c : CustomOpts) (ps : List Policy) : List GFilter :=
+  if (ps.filter (·.action == .custom)).isEmpty then []
+  else if (sortDedup ((ps.filter (·.action == .custom)).map (·.provider))).length > 1 && !c.multi then
+    (sortDedup ((ps.filter (·.action == .custom)).map (·.provider))).map fun pr =>
+      .rbac (badCustomFilter o (ps.filter (·.action == .custom)) pr)
+  else
+    (sortDedup ((ps.filter (·.action == .custom)).map (·.provider))).flatMap fun pr =>
+      if c.providers.contains pr then customFilters o (ps.filter (·.action == .custom)) pr
+      else [.rbac (badCustomFilter o (ps.filter (·.action == .custom)) pr)]
+
+/-- The whole authorization part of a filter chain: CUSTOM filters first, then AUDIT, DENY, ALLOW
+    (the order in which the authz plugin adds them). -/
+def compileAll (w : Workload) (o : BuildOpts) (c : CustomOpts) (ps : List Policy) : List GFilter :=
+  compileCustomSelected o c (selectPolicies w ps) ++ (compile w o ps).map .rbac
+
 end IstioModel.C08
